@@ -66,6 +66,11 @@ static lp_id_t get_random_neighbor(lp_id_t from, struct topology *topology, size
 	assert(topology->geometry != TOPOLOGY_FCMESH);
 	assert(topology->geometry != TOPOLOGY_GRAPH);
 
+	// Shuffle a private copy: the caller passes a file-scope array shared by every LP and thread
+	enum topology_direction shuffled[n_directions];
+	memcpy(shuffled, directions, sizeof(shuffled));
+	directions = shuffled;
+
 	if(n_directions > 1) {
 		for(size_t i = 0; i < n_directions - 1; i++) {
 			size_t j = RandomRange((int)i, (int)n_directions - 1);
